@@ -43,7 +43,7 @@ fn after_family(ctx: &mut Ctx) {
 
 /// operands written with sign strings (§441: signs and blanks before the digits)
 const SIGNED: [&str; 8] = ["--3", "-+-3", "+-3", "- 3", "- -3", "-0", "+2", "-- -1"];
-const TREE_PREAMBLE: &str = "\\let\\myif=\\iftrue\\let\\myfi=\\fi\\let\\myelse=\\else\\def\\hidfi{\\fi}";
+const TREE_PREAMBLE: &str = "\\let\\myif=\\iftrue\\let\\myfi=\\fi\\let\\myelse=\\else\\def\\hidfi{\\fi}\\def\\sp{ }\\def\\e{}";
 /// `~` is \let to \iftrue or to \fi, depending on what the tree uses it for (never both in one tree).
 fn tree_env(f: &cond::TreeFacts) -> (Env, &'static str) {
     let (mut e, _) = (tree_env_base(), ());
@@ -64,6 +64,8 @@ fn tree_env_base() -> Env {
     e.insert("myfi", Meaning::Fi);
     e.insert("myelse", Meaning::Else);
     e.insert("hidfi", Meaning::Macro(vec![Tok::Cs("fi")]));
+    e.insert("sp", Meaning::Macro(vec![cond::SPACE]));
+    e.insert("e", Meaning::Macro(vec![]));
     e
 }
 
@@ -77,6 +79,7 @@ fn variant_json(v: &Variant) -> Value {
         Head::IfCase(n) => json!({"ifcase": n}),
         Head::IfOddText(t) => json!({"ifodd_text": t}),
         Head::IfCaseText(t) => json!({"ifcase_text": t}),
+        Head::IfNumSpaced(a, r, b, k1, k2, st) => json!({"ifnum_spaced": [a, r.to_string(), b, k1, k2, st]}),
         Head::IfEof(n) => json!({"ifeof": n}),
         Head::IfHarness(b) => json!({"ifharness": b}),
         Head::ActiveTrue => json!("active-true"),
@@ -105,6 +108,8 @@ fn variant_parse(v: &Value) -> Variant {
         Head::IfOddText(SIGNED.iter().copied().find(|x| *x == t).expect("known operand text"))
     } else if let Some(t) = h["ifcase_text"].as_str() {
         Head::IfCaseText(SIGNED.iter().copied().find(|x| *x == t).expect("known operand text"))
+    } else if let Some(a) = h["ifnum_spaced"].as_array() {
+        Head::IfNumSpaced(a[0].as_i64().unwrap(), a[1].as_str().unwrap().chars().next().unwrap(), a[2].as_i64().unwrap(), a[3].as_u64().unwrap() as u8, a[4].as_u64().unwrap() as u8, a[5].as_u64().unwrap() as u8)
     } else if let Some(n) = h["ifeof"].as_i64() {
         Head::IfEof(n)
     } else if let Some(b) = h["ifharness"].as_bool() {
@@ -231,7 +236,9 @@ fn check_tree_how(idx: u64, c: &Cond, full_state: bool, distinct: bool, via_macr
             acc.count(name);
         }
     }
-    let _ = ev;
+    if ev.blanks_before_relation >= 2 {
+        acc.count("ifnum_relation_preceded_by_two_or_more_space_tokens");
+    }
     let ok = matches!(&out, Outcome::Done(o) if o.err.is_none() && o.toks == want);
     if ok {
         acc.class(&format!("tree ok nodes={} depth={} delivered={}", f.nodes, f.depth, r.expected.len().min(9)));
@@ -308,6 +315,17 @@ fn all_conditions() -> Vec<Variant> {
         v.push(Variant::new(Head::IfFalse, 0, e));
         v.push(Variant::new(Head::AliasTrue, 0, e));
         v.push(Variant::new(Head::ActiveTrue, 0, e));
+        for (a, b) in [(1i64, 2i64), (2, 2), (2, 1)] {
+            for r in ['<', '=', '>'] {
+                for k1 in 0..=4u8 {
+                    for k2 in 0..=2u8 {
+                        for st in 0..=1u8 {
+                            v.push(Variant::new(Head::IfNumSpaced(a, r, b, k1, k2, st), 0, e));
+                        }
+                    }
+                }
+            }
+        }
         v.push(Variant::new(Head::IfEof(0), 0, e));
         v.push(Variant::new(Head::IfEof(15), 0, e));
         v.push(Variant::new(Head::IfHarness(true), 0, e));
@@ -765,7 +783,7 @@ fn main() {
         let cref = &conds;
         ctx.family(
             "conditions-in-contexts",
-            &format!("{} conditions (\\iftrue, \\iffalse, \\let-alias, \\ifeof 0 / 15 (never opened: true), two conditionals the harness implements through the public Condition trait without DOC (\\ifht true, \\ifhf false), the active character ~ \\let to \\iftrue, ~ \\let to \\fi closing an \\iftrue / \\iffalse, \\ifnum a R b for a,b in {{-(2^31-1),-3,-1,0,1,2,2^31-2,2^31-1}} x R in {{<,=,>}}, \\ifodd n for n in {{+-3,+-2,+-1,0,+-(2^31-2),+-(2^31-1)}}, \\ifodd and \\ifcase with 8 sign-string operands (--3, -+-3, +-3, - 3, - -3, -0, +2, -- -1), \\ifcase n for n in {{-(2^31-1),-1,0,1,2,3,4,7,2^31-1}} with 0-3 \\or; each with and without \\else) x 11 contexts (top level; live/skipped then- and else-branch; skipped / live / else branch of an \\ifcase, a case after the selected one; two levels inside skipped text) x 4 body patterns (letter; letter + nested \\iffalse..\\else..\\fi; empty; letter + U+00E9 U+20AC U+1D4B3) x read from the file / read back from a macro expansion x followed by )\\END / last thing in the input", conds.len()),
+            &format!("{} conditions (\\iftrue, \\iffalse, \\let-alias, \\ifnum with 0-4 / 0-2 space tokens produced by macros before the relation / before the second operand, \\ifeof 0 / 15 (never opened: true), two conditionals the harness implements through the public Condition trait without DOC (\\ifht true, \\ifhf false), the active character ~ \\let to \\iftrue, ~ \\let to \\fi closing an \\iftrue / \\iffalse, \\ifnum a R b for a,b in {{-(2^31-1),-3,-1,0,1,2,2^31-2,2^31-1}} x R in {{<,=,>}}, \\ifodd n for n in {{+-3,+-2,+-1,0,+-(2^31-2),+-(2^31-1)}}, \\ifodd and \\ifcase with 8 sign-string operands (--3, -+-3, +-3, - 3, - -3, -0, +2, -- -1), \\ifcase n for n in {{-(2^31-1),-1,0,1,2,3,4,7,2^31-1}} with 0-3 \\or; each with and without \\else) x 11 contexts (top level; live/skipped then- and else-branch; skipped / live / else branch of an \\ifcase, a case after the selected one; two levels inside skipped text) x 4 body patterns (letter; letter + nested \\iffalse..\\else..\\fi; empty; letter + U+00E9 U+20AC U+1D4B3) x read from the file / read back from a macro expansion x followed by )\\END / last thing in the input", conds.len()),
             n,
             |i, acc| {
                 let d = vcore::digits(i, &radices);
@@ -773,7 +791,7 @@ fn main() {
                 let p = Cond { v: v.clone(), bodies: probe_bodies(v, d[2]) };
                 let c = in_context(d[1], p);
                 // \\iftrue / \\iffalse / alias / \\ifcase probes also occur in the tree families: counted there
-                let distinct = d[3] + d[4] > 0 || d[2] == 3 || matches!(v.head, Head::IfNum(..) | Head::IfOdd(_) | Head::IfOddText(_) | Head::IfCaseText(_) | Head::IfEof(_) | Head::IfHarness(_) | Head::ActiveTrue | Head::TrueActiveFi | Head::FalseActiveFi);
+                let distinct = d[3] + d[4] > 0 || d[2] == 3 || matches!(v.head, Head::IfNum(..) | Head::IfNumSpaced(..) | Head::IfOdd(_) | Head::IfOddText(_) | Head::IfCaseText(_) | Head::IfEof(_) | Head::IfHarness(_) | Head::ActiveTrue | Head::TrueActiveFi | Head::FalseActiveFi);
                 if matches!(v.head, Head::IfOddText(_) | Head::IfCaseText(_)) {
                     acc.count("operand_with_a_sign_string");
                 }
@@ -1102,6 +1120,7 @@ fn main() {
     ctx.require("tree_read_back_from_a_macro_expansion", "a conditional whose tokens (skipped text included) come from a macro expansion instead of the file");
     ctx.require("tree_is_the_last_thing_in_the_input", "the closing \\fi is the last token of the input");
     ctx.require("truncated_programs", "programs cut off at every position");
+    ctx.require("ifnum_relation_preceded_by_two_or_more_space_tokens", "two or more space tokens (from \\sp macros / around an empty macro) between the first \\ifnum operand and the relation");
     ctx.require("skipped_text_contains_ifeof", "an \\ifeof .. \\fi inside skipped text");
     ctx.require("skipped_text_contains_condition_without_doc", "a conditional built from a Condition without DOC inside skipped text");
     ctx.require("ifeof_or_harness_condition_evaluated", "\\ifeof / the harness conditionals evaluated in live text");
